@@ -96,8 +96,16 @@ func c05Normal(c *C05Normal, r *core.Rec) {
 			r.Fail("N-CDF-monotone", "Normal{%v,%v}.CDF drops from %v to %v at x=%v", c.Mu, c.Sigma, prev, g, x)
 		}
 		prev = g
-		if p := d.PDF(x); p < 0 || math.IsNaN(p) {
+		p := d.PDF(x)
+		if p < 0 || math.IsNaN(p) {
 			r.Fail("N-PDF-negative", "PDF(%v)=%v", x, p)
+		}
+		// the integral of PDF over an arbitrarily short interval at x is the density:
+		// PDF(x) = exp(-z^2/2)/(Sigma sqrt(2 pi)) with the exact standardised z
+		zf := ref.ToF(zOf(x))
+		wantP := math.Exp(-zf*zf/2) / (c.Sigma * math.Sqrt(2*math.Pi))
+		if !r.Err("N-PDF", math.Abs(p-wantP), 1e-9*wantP*(1+zf*zf)+1e-300) {
+			r.Fail("N-PDF", "Normal{%v,%v}.PDF(%v)=%v, density %v (z=%v)", c.Mu, c.Sigma, x, p, wantP, zf)
 		}
 	}
 	if lo, hi := d.CDF(math.Inf(-1)), d.CDF(math.Inf(1)); lo != 0 || hi != 1 {
